@@ -47,6 +47,9 @@ MsgStep(e) ==
     /\ Check("C07.unique-sorted-with-nyct-extension", c, l, ok => (C07_UniqueTrips(r) /\ C07_TripsSorted(r) /\ C07_UniqueVehicleIds(r)))
     /\ Check("C07.order-independent-with-nyct-extension", c, l,
              cf => \A k \in DOMAIN e.perms : e.perms[k].err = "" => C07_SameTripsVehiclesLinks(e.perms[k].res, r))
+    (* the reference instant of the stale rule is the feed's timestamp, whatever a trip update says about itself *)
+    /\ Check("C16.stale-rule-uses-the-feed-timestamp", c, l,
+             ok => \A k \in DOMAIN e.tsVariants : (e.tsVariants[k].err = "" /\ e.tsVariants[k].res = r))
     /\ Check("C16.transparent-on-plain-entities", c, l,
              (ok /\ e.plainErr = "" /\ AllPlain(msg.ents) /\ ~SwapApplies(msg.ents, opts)) => r = e.plain)
 
